@@ -33,6 +33,17 @@ ASSUMPTIONS = [
 ]
 
 MUTANTS = [
+    ("clipping skipped when the spread is 'close to zero'",
+     "AegeanTools/BANE.py",
+     "    mean = np.mean(clipped)\n    prev_valid = len(clipped)\n",
+     "    mean = np.mean(clipped)\n    if np.isclose(std, 0):\n"
+     "        return mean, std\n    prev_valid = len(clipped)\n",
+     "C06-R12"),
+    ("absolute floor on the spread", "AegeanTools/BANE.py",
+     "    mean = np.mean(clipped)\n    prev_valid = len(clipped)\n",
+     "    mean = np.mean(clipped)\n    if std < 1e-9:\n"
+     "        return mean, 0.0\n    prev_valid = len(clipped)\n",
+     "C06-R12"),
     ("header cached by file name", "AegeanTools/BANE.py",
      "def sigmaclip(arr, lo, hi, reps=10):",
      "@lru_cache(maxsize=32)\ndef get_header(filename):\n"
@@ -655,6 +666,31 @@ def run(ctx):
                                        norm(rep[0][0], 70) if rep else ""),
                   node=rep[0][0] if rep else fi9.node)
     ctx.floor("C06-R9", n9, 2, "estimator functions examined")
+    from .. import homog
+    ctx.rule("C06-R12", "scale equivariance of the estimator: in sigmaclip "
+             "and sigma_filter every comparison is between quantities of the "
+             "same degree in the pixel values and no tolerance test has an "
+             "absolute part (np.isclose(std, 0), std < 1e-8 ...): otherwise "
+             "a faint image and the same image times k are clipped "
+             "differently and the maps do not scale by k, |k|")
+    n12 = 0
+    for short, seeds in (("BANE.sigmaclip", None),
+                         ("BANE.sigma_filter", {"data": 1})):
+        fi12 = prog.func(short)
+        if seeds is None:
+            seeds = {fi12.params[0]: 1}
+            seeds.update({p_: 0 for p_ in fi12.params[1:]})
+        env12, bad12 = homog.analyse(fi12.node, seeds)
+        cmp12 = [x for x in walk_no_nested(fi12.node)
+                 if isinstance(x, ast.Compare)]
+        n12 += len(cmp12)
+        ctx.check("C06-R12", fi12, "%d comparisons homogeneous in %s" %
+                  (len(cmp12), short), not bad12,
+                  bad12[0][1] if bad12 else "",
+                  {"degree 1 names": sorted(k for k, v in env12.items()
+                                            if v == 1)},
+                  node=bad12[0][0] if bad12 else fi12.node)
+    ctx.floor("C06-R12", n12, 6, "comparisons examined")
     from .. import link as _link
     n10 = _link.argument_binding(ctx, "C06-R10", modules=["BANE"],
                                  what="BANE: step / box sizes, shapes, "
